@@ -5,7 +5,8 @@
 
 use std::collections::{BTreeMap, BTreeSet, VecDeque};
 
-/// Documented maximum number of entries of a register (`MAX_REG_NUM_ENTRIES`).
+/// Documented maximum number of entries of a register (`MAX_REG_NUM_ENTRIES`): a register may hold up to and
+/// including LIMIT ops; add_op must refuse the next one; a register holding more is rejected by verify().
 pub const LIMIT: usize = 1024;
 /// Documented maximum size of one entry (`MAX_REG_ENTRY_SIZE`).
 pub const MAX_ENTRY: usize = 1024;
